@@ -62,9 +62,20 @@ structure Srv where
   /-- how many times the run was (re)loaded into memory -/
   loads : Nat := 0
 
+/-- what `WorkflowTickAdapter.dump_python(tick, mode="json")` keeps of a step result: `AddWaiter`
+always writes `requirements = {}`, and its `has_requirements` marker is stripped again on
+validation, so a persisted waiter registration comes back **without requirements** -/
+def Res.persist : Res → Res
+  | .addWaiter wid we _ tmo ty => .addWaiter wid we none tmo ty
+  | r => r
+
+def Tick.persist : Tick → Tick
+  | .stepResult s w e rs => .stepResult s w e (rs.map Res.persist)
+  | t => t
+
 /-- everything `append_tick` has written for this run -/
 def Srv.persisted (s : Srv) : List Tick :=
-  s.store ++ (match s.live with | some r => r.log.map (·.1) | none => [])
+  s.store ++ (match s.live with | some r => r.log.map (fun p => p.1.persist) | none => [])
 
 def lastExit (cmds : List Cmd) : Option Cmd := (cmds.filter Cmd.isExit).getLast?
 
